@@ -2304,6 +2304,7 @@ impl SubRule {
             #[cfg(feature = "verif")] crate::verif::tick(132);
             let back_pos = *pos;
             let back_state = *state_index;
+            let back_captures = captures.len();
             let back_alphas = self.alphas.borrow().clone();
             let back_varlbs = self.variables.borrow().clone();
 
@@ -2325,6 +2326,8 @@ impl SubRule {
             }
             *state_index = back_state;
             *pos = back_pos;
+            // what the failed attempt captured does not belong to the match
+            captures.truncate(back_captures);
             *self.alphas.borrow_mut() = back_alphas;
             *self.variables.borrow_mut() = back_varlbs;
             pos.increment(word);
